@@ -121,7 +121,10 @@ func cliProp() engine.AnyProp {
 			var stderr bytes.Buffer
 			cmd := exec.Command(bin, args...)
 			cmd.Stderr = &stderr
-			if err := cmd.Run(); err != nil {
+			if err, stuck := engine.RunProgram(cmd); stuck {
+				o.Failf("indicator-backtest %v never exits (asleep, no CPU time consumed for 30 s): %s", args, tail(stderr.String()))
+				return o
+			} else if err != nil {
 				o.Failf("indicator-backtest %v: %v: %s", args, err, tail(stderr.String()))
 				return o
 			}
